@@ -681,3 +681,15 @@ S("seed-C10-b", ["C10"], "seeded/C10-b/patch.diff", [("C10", "C10-R5", "_count_c
 S("seed-C17-b", ["C17"], "seeded/C17-b/patch.diff", [("C17", "C17-R10", "reduce_fn:alias-across-callback")], silent=["C04"], note="local alias of arr._elements kept across the callback")
 S("seed-C03-b", ["C03"], "seeded/C03-b/patch.diff", [("C03", "C03-R7", "handle_replacement")], note="capture groups passed to the replacer un-normalised (None)")
 S("seed-C08-b", ["C08"], "seeded/C08-b/patch.diff", [("C08", "C08-R8", "typeof(result)~object")], note="typeof-based objectness test accepts null")
+S("seed-C15-b", ["C15"], "seeded/C15-b/patch.diff", [("C15", "C15-R1c", "transfer:js_func._closure_cells")], note="child closure reuses the parent's cell list: positions follow two different list(set) orders")
+M("c15-cells-indexed-by-wrong-table", ["C15"], VM,
+  "                            idx = frame.func.free_vars.index(var_name)\n                            closure_cells.append(frame.closure_cells[idx])",
+  "                            idx = compiled_func.free_vars.index(var_name)\n                            closure_cells.append(frame.closure_cells[idx])",
+  [("C15", "C15-R1c", "index:frame.closure_cells")], note="position looked up in the child's table, used in the parent's cells")
+M("c15-cell-storage-from-free-vars", ["C15"], VM,
+  "            for var_name in compiled.cell_vars:\n                # Find the initial value from locals",
+  "            for var_name in compiled.free_vars:\n                # Find the initial value from locals",
+  [("C15", "C15-R1c", "")], note="cell storage built from the wrong name table")
+T("t-c15-bind-copies-cells-first", ["C15"], VM,
+  "            # Copy compiled function reference\n            if hasattr(func, \"_compiled\"):\n                bound_func._compiled = func._compiled\n            # Copy closure cells\n            if hasattr(func, \"_closure_cells\"):\n                bound_func._closure_cells = func._closure_cells\n",
+  "            # Copy closure cells\n            if hasattr(func, \"_closure_cells\"):\n                bound_func._closure_cells = func._closure_cells\n            # Copy compiled function reference\n            if hasattr(func, \"_compiled\"):\n                bound_func._compiled = func._compiled\n")
